@@ -6,8 +6,18 @@
 //!   QueryStart(r, q)   before the `Analysis::*` call
 //!   QueryEnd(r, q, ok(hash) | cancelled | panic)   after the call returned, BEFORE the snapshot is dropped
 //!   Drop(r)            before the snapshot is dropped (the drop itself follows immediately)
-//!   ApplyBegin(c, touched files)   before `host.apply_change` is called
+//!   ApplyBegin(c, touch)           before `host.apply_change` is called; touch = the writes the Change carries, in
+//!                                  queue order: 0 = a write without file text (package graph, roots), -f = an
+//!                                  intermediate text of module f, f = the text module f has in version c
 //!   ApplyEnd(c, ms)                after it returned
+//! Changes are built the way the server builds them: a Change may carry two successive contents for the same
+//! file (the editor sent two edits before the analysis took them; the last one is the file's text) in any
+//! interleaving with the other files' contents, and may re-send roots and package graph (seeded).
+//! Queries: the menu of a run contains EVERY public query method of `ide::Analysis` (see `API`), and a reader
+//! in "ambush" mode keeps its snapshot until the writer is inside `apply_change`, probes until a query comes
+//! back Cancelled (from then on the write is known to be pending: the flag cannot go down while this snapshot
+//! lives) and then issues the whole menu: every entry point is exercised with a write pending, in every such
+//! run, independent of timing.
 //! The `AnalysisHost` lives in a `Mutex` that is held only for `snapshot()` and for `apply_change()`
 //! (the mutex plays the role of `&self` / `&mut self` exclusivity: the real server does both on its single
 //! main-loop thread).  Readers hold *snapshots*, never the mutex, while they query, so the only thing that
@@ -25,6 +35,7 @@ use std::io::Write;
 use std::sync::atomic::{AtomicBool, AtomicU64, AtomicUsize, Ordering::SeqCst};
 use std::sync::{mpsc, Arc, Mutex};
 use std::time::{Duration, Instant};
+use syntax::{TextRange, TextSize};
 use verif_harness::util::{quiet_panics, Rng, LAST_PANIC_LOC};
 
 const STACK: usize = 64 << 20;
@@ -107,10 +118,40 @@ const SPOTS: &[(&str, usize)] = &[
     ("let c", 3),      // whitespace between tokens
 ];
 
+/// Every menu starts with one entry per line of this table, i.e. with every public query method of
+/// `ide::Analysis` (bin/checks/c12.py compares `API` with the `pub fn`s of `impl Analysis` in the tree under
+/// test); the argument shapes that select a different code path inside a method have their own kind.
 const KINDS: &[&str] = &[
-    "hover", "hover", "goto_definition", "references", "completions", "diagnostics", "syntax_tree",
-    "highlight_related", "syntax_highlight", "signature_help",
+    "hover",
+    "hover",
+    "goto_definition",
+    "references",
+    "completions",                    // trigger_char = None
+    "completions/dot",                // Some('.')
+    "completions/at",                 // Some('@')
+    "diagnostics",
+    "syntax_tree",
+    "highlight_related",
+    "syntax_highlight",               // range = None
+    "syntax_highlight/inside",        // Some([at, at + 400) clipped to the file)
+    "syntax_highlight/over_end",      // Some([at, len + 1000)): ends past the end of the file
+    "syntax_highlight/all_over_end",  // Some([0, u32::MAX))
+    "syntax_highlight/at_end",        // Some([len, len + 64)): starts at the very end, ends past it
+    "syntax_highlight/empty",         // Some([at, at))
+    "signature_help",
+    "prepare_rename",
+    "rename",
 ];
+
+/// the public query methods of `ide::Analysis` this harness calls
+const API: &[&str] = &[
+    "hover", "completions", "diagnostics", "highlight_related", "goto_definition", "references", "prepare_rename",
+    "rename", "syntax_tree", "syntax_highlight", "signature_help",
+];
+
+fn api_method(kind: &str) -> &str {
+    kind.split('/').next().unwrap_or(kind)
+}
 
 fn gen_menu(rng: &mut Rng, nf: usize, nq: usize) -> Vec<Query> {
     let mut m = vec![];
@@ -213,15 +254,48 @@ fn render_query(a: &Analysis, q: &Query, text: &str) -> Result<Result<String, id
                 None => "None".into(),
                 Some(v) => sorted(&v),
             },
-            "completions" => match a.completions(pos, None)? {
-                None => "None".into(),
-                Some(v) => sorted(&v),
-            },
+            "completions" | "completions/dot" | "completions/at" => {
+                let trigger = match q.kind {
+                    "completions/dot" => Some('.'),
+                    "completions/at" => Some('@'),
+                    _ => None,
+                };
+                match a.completions(pos, trigger)? {
+                    None => "None".into(),
+                    Some(v) => sorted(&v),
+                }
+            }
             "diagnostics" => sorted(&a.diagnostics(file)?),
             "syntax_tree" => a.syntax_tree(file)?,
             "highlight_related" => sorted(&a.highlight_related(pos)?),
             "syntax_highlight" => sorted(&a.syntax_highlight(file, None)?),
+            // ranged highlighting (semanticTokens/range): ranges inside the file, reaching past its end (the editor's
+            // copy of the document may be longer than the snapshot's), starting at its very end, and empty.  A range
+            // STARTING past the end is outside the contract of the method (rowan asserts, with or without a race) and
+            // is not issued.
+            "syntax_highlight/inside" | "syntax_highlight/over_end" | "syntax_highlight/all_over_end"
+            | "syntax_highlight/at_end" | "syntax_highlight/empty" => {
+                let (at, len) = (at as u32, text.len() as u32);
+                let (s, e) = match q.kind {
+                    "syntax_highlight/inside" => (at, (at + 400).min(len)),
+                    "syntax_highlight/over_end" => (at, len + 1000),
+                    "syntax_highlight/all_over_end" => (0, u32::MAX),
+                    "syntax_highlight/at_end" => (len, len + 64),
+                    _ => (at, at),
+                };
+                sorted(&a.syntax_highlight(file, Some(TextRange::new(TextSize::from(s), TextSize::from(e))))?)
+            }
             "signature_help" => format!("{:?}", a.signature_help(pos)?),
+            "prepare_rename" => format!("{:?}", a.prepare_rename(pos)?),
+            "rename" => match a.rename(pos, "renamed_by_verif")? {
+                Err(e) => format!("Err({e:?})"),
+                Ok(we) => {
+                    // the edit is a HashMap per file: rendered in file order, edits of a file as a set
+                    let mut files: Vec<(u32, String)> = we.content_edits.iter().map(|(f, es)| (f.0, sorted(es))).collect();
+                    files.sort();
+                    format!("Ok({files:?})")
+                }
+            },
             k => panic!("harness: unknown query kind {k}"),
         })
     })
@@ -235,23 +309,35 @@ fn toml() -> String {
 /// ide's own test fixture does.
 fn fresh_host(texts: &[Arc<str>]) -> AnalysisHost {
     let mut change = Change::default();
-    let mut set = FileSet::default();
     for (i, t) in texts.iter().enumerate() {
-        let f = FileId(i as u32);
-        set.insert(f, VfsPath::new(format!("/test/m{i}.gleam")));
-        change.change_file(f, t.clone());
+        change.change_file(FileId(i as u32), t.clone());
     }
-    let tf = FileId(texts.len() as u32);
-    set.insert(tf, VfsPath::new("/gleam.toml"));
-    change.change_file(tf, toml().into());
-    change.set_roots(vec![SourceRoot::new(set, "/".into())]);
-    let mut g = PackageGraph::default();
-    g.add_package("test".into(), tf, true);
-    change.set_package_graph(g);
+    change.change_file(FileId(texts.len() as u32), toml().into());
+    workspace_layout(&mut change, texts.len());
     let mut host = AnalysisHost::new();
     host.apply_change(change);
     host
 }
+
+/// roots + package graph of the workspace (always the same ones).  `META_WRITES` = the salsa writes
+/// `Change::apply` makes for them: package graph 1, per file of the root `file_source_root` 1, `module_map` 1,
+/// `source_root` 1.
+fn workspace_layout(change: &mut Change, nmod: usize) {
+    let mut set = FileSet::default();
+    for i in 0..nmod {
+        set.insert(FileId(i as u32), VfsPath::new(format!("/test/m{i}.gleam")));
+    }
+    let tf = FileId(nmod as u32);
+    set.insert(tf, VfsPath::new("/gleam.toml"));
+    change.set_roots(vec![SourceRoot::new(set, "/".into())]);
+    let mut g = PackageGraph::default();
+    g.add_package("test".into(), tf, true);
+    change.set_package_graph(g);
+}
+const META_WRITES: usize = 1 + (NMOD + 1) + 2;
+/// content id of the intermediate text a change `c` queues for a file before the final one: differs from every
+/// final content id (0..=4) in header length, return-type variant (except one pair), constant and syntax error
+const MID: usize = 50;
 
 // ------------------------------------------------------------------------------------------------
 // events
@@ -304,6 +390,11 @@ struct Shared {
     t0: Instant,
     versions: Vec<Vec<Arc<str>>>, // versions[v][file]
     menu: Vec<Query>,
+    mids: Vec<Vec<Option<Arc<str>>>>, // mids[c][file] = the intermediate text change c queues for file before versions[c][file]
+    k: usize,
+    forced_ambush: bool,
+    ambush: AtomicUsize,        // readers that hold a snapshot and wait for the writer to be inside apply_change
+    ambush_timeouts: AtomicUsize,
 }
 
 struct RunPlan {
@@ -313,6 +404,18 @@ struct RunPlan {
     nf: usize,
     salt: u64,
     touches: Vec<Vec<usize>>, // per change: touched module files (0-based)
+    batches: Vec<Vec<i64>>,   // per change: its file writes in queue order, f+1 = final text of module f, -(f+1) = an intermediate one
+    meta: Vec<bool>,          // per change: does it also carry roots + package graph
+    forced_ambush: bool,      // reader 1 ambushes the first change
+}
+
+impl RunPlan {
+    /// what the ApplyBegin line says about change c (1-based)
+    fn todo(&self, c: usize) -> Vec<i64> {
+        let mut t = vec![0i64; if self.meta[c - 1] { META_WRITES } else { 0 }];
+        t.extend(&self.batches[c - 1]);
+        t
+    }
 }
 
 struct RunStats {
@@ -325,11 +428,42 @@ struct RunStats {
     harness_error: Option<String>,
 }
 
+struct ReaderAcc {
+    max_ms: f64,
+    panics: Vec<Value>,
+    nqueries: u64,
+}
+
+/// one logged query of reader r on its snapshot of version `ver`; `pend` = the reader KNOWS that a write is pending
+/// (an earlier query on this snapshot came back Cancelled, and the flag cannot go down while the snapshot lives)
+fn one_query(sh: &Shared, r: usize, snap: &Analysis, ver: usize, qi: usize, pend: bool, acc: &mut ReaderAcc) -> Res {
+    let q = &sh.menu[qi];
+    let text = &sh.versions[ver][q.file];
+    sh.log.ev(r, json!({"ev": "QueryStart", "r": r, "q": qi + 1, "pend": pend}));
+    sh.busy.fetch_add(1, SeqCst);
+    let t = Instant::now();
+    sh.query_since_ms[r].store(sh.t0.elapsed().as_millis() as u64 + 1, SeqCst);
+    let res = run_query(snap, q, text);
+    sh.query_since_ms[r].store(0, SeqCst);
+    let ms = t.elapsed().as_secs_f64() * 1e3;
+    sh.busy.fetch_sub(1, SeqCst);
+    sh.log.ev(r, json!({"ev": "QueryEnd", "r": r, "q": qi + 1, "res": res.tag(), "h": res.hash()}));
+    acc.nqueries += 1;
+    if ms > acc.max_ms {
+        acc.max_ms = ms;
+    }
+    if let Res::Panic(m) = &res {
+        acc.panics.push(json!({"reader": r, "query": format!("{q:?}"), "snapshot_version": ver, "panic": m, "write_known_pending": pend}));
+    }
+    res
+}
+
+const MAX_PROBES: usize = 60;
+
 fn reader(sh: Arc<Shared>, r: usize, mut rng: Rng, max_q: usize, stats: mpsc::Sender<(f64, Vec<Value>, u64)>) {
-    let mut max_ms = 0f64;
-    let mut panics = vec![];
-    let mut nqueries = 0u64;
+    let mut acc = ReaderAcc { max_ms: 0.0, panics: vec![], nqueries: 0 };
     let mut per_version = (usize::MAX, 0usize);
+    let mut first = true;
     while !sh.stop.load(SeqCst) {
         delay(&mut rng, 300);
         let (snap, ver) = {
@@ -343,27 +477,46 @@ fn reader(sh: Arc<Shared>, r: usize, mut rng: Rng, max_q: usize, stats: mpsc::Se
             per_version = (ver, 0);
         }
         per_version.1 += 1;
-        let nq = 1 + rng.below(max_q);
-        for _ in 0..nq {
-            delay(&mut rng, 100);
-            let qi = rng.below(sh.menu.len());
-            let q = &sh.menu[qi];
-            let text = &sh.versions[ver][q.file];
-            sh.log.ev(r, json!({"ev": "QueryStart", "r": r, "q": qi + 1}));
-            sh.busy.fetch_add(1, SeqCst);
+        // ambush: keep this snapshot until the writer is inside apply_change(ver + 1) - it cannot get past its first
+        // write while the snapshot lives -, probe until a query reports Cancelled, then issue the whole menu
+        let ambush = ver < sh.k && ((first && r == 1 && sh.forced_ambush) || rng.below(8) == 0);
+        first = false;
+        if ambush {
+            sh.ambush.fetch_add(1, SeqCst);
             let t = Instant::now();
-            sh.query_since_ms[r].store(sh.t0.elapsed().as_millis() as u64 + 1, SeqCst);
-            let res = run_query(&snap, q, text);
-            sh.query_since_ms[r].store(0, SeqCst);
-            let ms = t.elapsed().as_secs_f64() * 1e3;
-            sh.busy.fetch_sub(1, SeqCst);
-            sh.log.ev(r, json!({"ev": "QueryEnd", "r": r, "q": qi + 1, "res": res.tag(), "h": res.hash()}));
-            nqueries += 1;
-            if ms > max_ms {
-                max_ms = ms;
+            while sh.apply_since_ms.load(SeqCst) == 0 && !sh.stop.load(SeqCst) && t.elapsed() < Duration::from_secs(2) {
+                std::thread::yield_now();
             }
-            if let Res::Panic(m) = &res {
-                panics.push(json!({"reader": r, "query": format!("{q:?}"), "snapshot_version": ver, "panic": m}));
+            let mut pending = false;
+            if sh.apply_since_ms.load(SeqCst) != 0 {
+                for i in 0..MAX_PROBES {
+                    let qi = rng.below(sh.menu.len());
+                    if one_query(&sh, r, &snap, ver, qi, false, &mut acc) == Res::Cancelled {
+                        pending = true;
+                        break;
+                    }
+                    if i >= 10 {
+                        std::thread::sleep(Duration::from_micros(100 * (i as u64 - 9).min(20)));
+                    } else {
+                        std::thread::yield_now();
+                    }
+                }
+            }
+            if pending {
+                let off = rng.below(sh.menu.len());
+                for i in 0..sh.menu.len() {
+                    one_query(&sh, r, &snap, ver, (off + i) % sh.menu.len(), true, &mut acc);
+                }
+            } else {
+                sh.ambush_timeouts.fetch_add(1, SeqCst);
+            }
+            sh.ambush.fetch_sub(1, SeqCst);
+        } else {
+            let nq = 1 + rng.below(max_q);
+            for _ in 0..nq {
+                delay(&mut rng, 100);
+                let qi = rng.below(sh.menu.len());
+                one_query(&sh, r, &snap, ver, qi, false, &mut acc);
             }
         }
         delay(&mut rng, 100);
@@ -377,7 +530,7 @@ fn reader(sh: Arc<Shared>, r: usize, mut rng: Rng, max_q: usize, stats: mpsc::Se
             }
         }
     }
-    let _ = stats.send((max_ms, panics, nqueries));
+    let _ = stats.send((acc.max_ms, acc.panics, acc.nqueries));
 }
 
 fn writer(sh: Arc<Shared>, plan: Arc<RunPlan>, mut rng: Rng, out: mpsc::Sender<(Vec<f64>, Vec<Value>)>) {
@@ -392,7 +545,7 @@ fn writer(sh: Arc<Shared>, plan: Arc<RunPlan>, mut rng: Rng, out: mpsc::Sender<(
             _ => {
                 let want = 1 + rng.below(plan.n);
                 let t = Instant::now();
-                while sh.busy.load(SeqCst) < want && t.elapsed() < Duration::from_millis(20) {
+                while sh.busy.load(SeqCst) < want && sh.ambush.load(SeqCst) == 0 && t.elapsed() < Duration::from_millis(20) {
                     std::hint::spin_loop();
                 }
                 match rng.below(3) {
@@ -402,11 +555,17 @@ fn writer(sh: Arc<Shared>, plan: Arc<RunPlan>, mut rng: Rng, out: mpsc::Sender<(
                 }
             }
         }
+        // the Change as the server builds it: (roots, package graph,) one content per edit it took from the editor
         let mut change = Change::default();
-        for &f in &plan.touches[c - 1] {
-            change.change_file(FileId(f as u32), sh.versions[c][f].clone());
+        if plan.meta[c - 1] {
+            workspace_layout(&mut change, NMOD);
         }
-        let touch: Vec<usize> = plan.touches[c - 1].iter().map(|f| f + 1).collect();
+        for &e in &plan.batches[c - 1] {
+            let f = e.unsigned_abs() as usize - 1;
+            let text = if e > 0 { sh.versions[c][f].clone() } else { sh.mids[c][f].clone().expect("planned intermediate text") };
+            change.change_file(FileId(f as u32), text);
+        }
+        let touch = plan.todo(c);
         let mut g = sh.host.lock().unwrap_or_else(|e| e.into_inner());
         sh.log.ev(0, json!({"ev": "ApplyBegin", "c": c, "touch": touch}));
         sh.apply_since_ms.store(sh.t0.elapsed().as_millis() as u64 + 1, SeqCst);
@@ -456,8 +615,29 @@ fn plan_run(seed: u64, run: u64, nf_max: usize, max_n: usize, max_k: usize) -> (
             }
             fs
         })
-        .collect();
-    (RunPlan { run, n, k, nf, salt, touches }, rng)
+        .collect::<Vec<Vec<usize>>>();
+    // the queue of each Change: the final texts in a seeded order; about every third touched file also has an
+    // intermediate text, queued anywhere before its final one
+    let mut batches = vec![];
+    let mut meta = vec![];
+    for t in &touches {
+        let mut b: Vec<i64> = vec![];
+        let mut rest: Vec<usize> = t.clone();
+        while !rest.is_empty() {
+            let i = rng.below(rest.len());
+            b.push(rest.remove(i) as i64 + 1);
+        }
+        for &f in t {
+            if rng.below(3) == 0 {
+                let at = b.iter().position(|&e| e == f as i64 + 1).unwrap();
+                b.insert(rng.below(at + 1), -(f as i64 + 1));
+            }
+        }
+        batches.push(b);
+        meta.push(rng.below(5) == 0);
+    }
+    let forced_ambush = rng.below(4) != 0;
+    (RunPlan { run, n, k, nf, salt, touches, batches, meta, forced_ambush }, rng)
 }
 
 fn versions_of(plan: &RunPlan) -> Vec<Vec<Arc<str>>> {
@@ -472,11 +652,45 @@ fn versions_of(plan: &RunPlan) -> Vec<Vec<Arc<str>>> {
     vs
 }
 
+/// mids[c][f] = the intermediate text change c queues for module f (None if it queues only the final one)
+fn mids_of(plan: &RunPlan) -> Vec<Vec<Option<Arc<str>>>> {
+    let mut ms: Vec<Vec<Option<Arc<str>>>> = vec![vec![None; NMOD]];
+    for c in 1..=plan.k {
+        let mut row = vec![None; NMOD];
+        for &e in &plan.batches[c - 1] {
+            if e < 0 {
+                let f = (-e) as usize - 1;
+                row[f] = Some(gen_module(f, MID + c, plan.salt, plan.nf).into());
+            }
+        }
+        ms.push(row);
+    }
+    ms
+}
+
+/// For the classification of a wrong answer only (never part of the verdict): the workspace version c would be if
+/// the FIRST content queued per file had been kept - None if change c queues one content per file.
+fn first_wins_versions(versions: &[Vec<Arc<str>>], mids: &[Vec<Option<Arc<str>>>]) -> Vec<Option<Vec<Arc<str>>>> {
+    versions
+        .iter()
+        .zip(mids)
+        .map(|(v, m)| {
+            if m.iter().all(|x| x.is_none()) {
+                return None;
+            }
+            Some(v.iter().zip(m).map(|(t, mid)| mid.clone().unwrap_or_else(|| t.clone())).collect())
+        })
+        .collect()
+}
+
 /// refs[v][q] = "<hash>" | "panic:<hash>"  for a fresh single-threaded analysis of version v
-fn references(versions: &[Vec<Arc<str>>], menu: &[Query]) -> Vec<Vec<String>> {
+fn references(versions: &[Option<Vec<Arc<str>>>], menu: &[Query]) -> Vec<Vec<String>> {
     let (tx, rx) = mpsc::channel();
     for (v, texts) in versions.iter().enumerate() {
-        let texts = texts.clone();
+        let Some(texts) = texts.clone() else {
+            let _ = tx.send((v, vec![]));
+            continue;
+        };
         let menu = menu.to_vec();
         let tx = tx.clone();
         spawn(format!("ref{v}"), move || {
@@ -503,6 +717,7 @@ fn references(versions: &[Vec<Arc<str>>], menu: &[Query]) -> Vec<Vec<String>> {
 
 fn one_run(plan: RunPlan, mut rng: Rng, attempt: u64, deadline: Duration, max_q: usize, nmenu: usize) -> RunStats {
     let versions = versions_of(&plan);
+    let mids = mids_of(&plan);
     let menu = gen_menu(&mut rng, plan.nf, nmenu);
     // the plan (workspace, changes, menu) is a function of (seed, run); the delays also of the attempt
     let mut rng = Rng::new(rng.next() ^ attempt.wrapping_mul(0x2545F4914F6CDD1D));
@@ -518,6 +733,11 @@ fn one_run(plan: RunPlan, mut rng: Rng, attempt: u64, deadline: Duration, max_q:
         t0: Instant::now(),
         versions,
         menu,
+        mids,
+        k: plan.k,
+        forced_ambush: plan.forced_ambush,
+        ambush: AtomicUsize::new(0),
+        ambush_timeouts: AtomicUsize::new(0),
     });
     struct StopOnExit(Arc<Shared>); // whatever happens to this function, the run's threads are told to stop
     impl Drop for StopOnExit {
@@ -597,10 +817,14 @@ fn one_run(plan: RunPlan, mut rng: Rng, attempt: u64, deadline: Duration, max_q:
     }
     let mut all = vec![];
     if blocked.is_none() {
-        let refs = references(&sh.versions, &sh.menu);
+        let refs = references(&sh.versions.iter().cloned().map(Some).collect::<Vec<_>>(), &sh.menu);
+        let refs_first = references(&first_wins_versions(&sh.versions, &sh.mids), &sh.menu);
         all.push(json!({"ev": "reset", "run": plan.run, "attempt": attempt, "n": n, "k": plan.k, "nf": plan.nf, "refs": refs,
+            "refs_first_content_wins": refs_first,
             "menu": sh.menu.iter().map(|q| format!("{}@m{}:{}..{:?}+{}", q.kind, q.file, q.anchor, q.inner, q.delta)).collect::<Vec<_>>(),
-            "touch": plan.touches.iter().map(|t| t.iter().map(|f| f + 1).collect::<Vec<_>>()).collect::<Vec<_>>()}));
+            "touch": plan.touches.iter().map(|t| t.iter().map(|f| f + 1).collect::<Vec<_>>()).collect::<Vec<_>>(),
+            "changes": (1..=plan.k).map(|c| plan.todo(c)).collect::<Vec<_>>(),
+            "ambush_timeouts": sh.ambush_timeouts.load(SeqCst)}));
     } else {
         all.push(json!({"ev": "reset", "run": plan.run, "attempt": attempt, "n": n, "k": plan.k, "nf": plan.nf, "refs": [], "aborted": true}));
     }
@@ -623,7 +847,7 @@ fn main() {
     let max_n: usize = arg(&args, "--max-readers", 4);
     let max_k: usize = arg(&args, "--max-changes", 4);
     let max_q: usize = arg(&args, "--max-queries", 3);
-    let nmenu: usize = arg(&args, "--menu", 12);
+    let nmenu: usize = arg(&args, "--menu", 24).clamp(KINDS.len(), 30);
     let deadline = Duration::from_millis(arg(&args, "--deadline-ms", 30_000));
     let trace_out: String = arg(&args, "--trace-out", String::from("/dev/null"));
     let only: Option<u64> = args.iter().position(|a| a == "--only-run").and_then(|i| args.get(i + 1)).and_then(|s| s.parse().ok());
@@ -664,7 +888,8 @@ fn main() {
             }
             let (run, attempt) = items[i];
             let (plan, rng) = plan_run(seed, run, nf, max_n, max_k);
-            let shape = json!({"run": run, "attempt": attempt, "readers": plan.n, "changes": plan.k, "funcs": plan.nf, "touch": plan.touches});
+            let shape = json!({"run": run, "attempt": attempt, "readers": plan.n, "changes": plan.k, "funcs": plan.nf, "touch": plan.touches,
+                "writes": (1..=plan.k).map(|c| plan.todo(c)).collect::<Vec<_>>(), "forced_ambush": plan.forced_ambush});
             // a panic of the harness itself (not of code under test, which is caught per call) must not go unnoticed
             let st = match catch(|| one_run(plan, rng, attempt, deadline, max_q, nmenu)) {
                 Ok(st) => st,
@@ -687,8 +912,61 @@ fn main() {
     let mut samples: Vec<Value> = vec![];
     let mut aborted = false;
     let mut harness_errors = 0u64;
+    // per query kind: [issued, issued while a write was known to be pending, cancelled, ok between ApplyBegin and ApplyEnd]
+    let mut by_kind: std::collections::BTreeMap<String, [u64; 4]> = KINDS.iter().map(|k| (k.to_string(), [0; 4])).collect();
+    let (mut ambushes, mut ambush_timeouts, mut dup_changes, mut meta_changes, mut dup_seen_after) = (0u64, 0u64, 0u64, 0u64, 0u64);
     for (run, st, shape) in rx {
         nruns += 1;
+        {
+            let kinds: Vec<String> = st.events[0]["menu"].as_array().map(|m| m.iter().map(|x| x.as_str().unwrap_or("").split('@').next().unwrap_or("").to_string()).collect()).unwrap_or_default();
+            let dup_of: Vec<bool> = st.events[0]["changes"].as_array().map(|cs| cs.iter().map(|c| c.as_array().map_or(false, |w| w.iter().any(|e| e.as_i64().unwrap_or(0) < 0))).collect()).unwrap_or_default();
+            ambush_timeouts += st.events[0]["ambush_timeouts"].as_u64().unwrap_or(0);
+            let mut started: std::collections::HashMap<u64, bool> = Default::default();
+            let mut snap_ver: std::collections::HashMap<u64, usize> = Default::default();
+            let mut in_apply = false;
+            let mut in_ambush: std::collections::HashSet<u64> = Default::default();
+            for e in &st.events[1..] {
+                let r = e["r"].as_u64().unwrap_or(0);
+                match e["ev"].as_str().unwrap_or("") {
+                    "ApplyBegin" => {
+                        in_apply = true;
+                        let w = e["touch"].as_array().cloned().unwrap_or_default();
+                        dup_changes += w.iter().any(|x| x.as_i64().unwrap_or(0) < 0) as u64;
+                        meta_changes += w.iter().any(|x| x.as_i64() == Some(0)) as u64;
+                    }
+                    "ApplyEnd" | "ApplyPanic" => in_apply = false,
+                    "Snapshot" => {
+                        snap_ver.insert(r, e["ver"].as_u64().unwrap_or(0) as usize);
+                    }
+                    "Drop" => {
+                        in_ambush.remove(&r);
+                    }
+                    "QueryStart" => {
+                        let pend = e["pend"].as_bool().unwrap_or(false);
+                        if pend && in_ambush.insert(r) {
+                            ambushes += 1;
+                        }
+                        started.insert(r, pend);
+                    }
+                    "QueryEnd" => {
+                        let q = e["q"].as_u64().unwrap_or(0) as usize;
+                        if let Some(k) = kinds.get(q.wrapping_sub(1)) {
+                            let c = by_kind.entry(k.clone()).or_insert([0; 4]);
+                            c[0] += 1;
+                            c[1] += started.get(&r).copied().unwrap_or(false) as u64;
+                            c[2] += (e["res"] == "cancelled") as u64;
+                            c[3] += (e["res"] == "ok" && in_apply) as u64;
+                        }
+                        // an ok answer on a snapshot of a version whose change queued two contents for a file
+                        let v = snap_ver.get(&r).copied().unwrap_or(0);
+                        if e["res"] == "ok" && v >= 1 && dup_of.get(v - 1).copied().unwrap_or(false) {
+                            dup_seen_after += 1;
+                        }
+                    }
+                    _ => {}
+                }
+            }
+        }
         nevents += st.events.len() as u64 - 1;
         nqueries += st.queries;
         // did a query overlap an apply?  (a Cancelled result, or a QueryEnd between ApplyBegin and ApplyEnd)
@@ -769,7 +1047,11 @@ fn main() {
     writeln!(o, "{}", json!({"kind": "summary", "runs": nruns, "events": nevents, "queries": nqueries, "racing_runs": racing,
         "cancelled_results": cancelled, "mismatches": mismatches, "max_apply_ms": max_apply,
         "mean_apply_ms": if napply > 0 { sum_apply / napply as f64 } else { 0.0 }, "applies": napply, "max_query_ms": max_query,
-        "ref_pairs_differing": discr.0, "ref_pairs": discr.1, "aborted": aborted, "harness_errors": harness_errors, "samples": samples})).unwrap();
+        "ref_pairs_differing": discr.0, "ref_pairs": discr.1, "aborted": aborted, "harness_errors": harness_errors, "samples": samples,
+        "api": API, "kinds": KINDS.iter().collect::<std::collections::BTreeSet<_>>(),
+        "by_kind": by_kind.iter().map(|(k, c)| (k.clone(), json!({"method": api_method(k), "issued": c[0], "write_known_pending": c[1], "cancelled": c[2], "ok_during_apply": c[3]}))).collect::<serde_json::Map<String, Value>>(),
+        "ambushes": ambushes, "ambush_timeouts": ambush_timeouts, "changes_with_two_contents_for_a_file": dup_changes,
+        "changes_with_roots_and_graph": meta_changes, "ok_answers_on_versions_after_such_changes": dup_seen_after})).unwrap();
     o.flush().unwrap();
     // threads of a blocked run can never be joined
     std::process::exit(0);
